@@ -37,6 +37,14 @@ CHECKS = {
          "Kernel-checked: map/filter/reduce loops equal filterMap/filter/foldl with (value, index, array) trimmed to the clamped arity; reduce requires arity two; $distinct returns a duplicate-free sub-list covering the input and keeps 1/\"1\"/{a:1}/{a:\"1\"} apart; the shuffle algorithm returns a permutation for all draws; aggregate empty/non-numeric rules. "
          "Tied to /repo by exhaustive arrays of length <= 3 over a 5-value domain and random arrays up to length 8 with function arguments of arity 0..3, built-ins, partials and chains; $shuffle is checked as a permutation relation on Go's output.",
          "DESIGN.md section 6 C15", "math/rand is a parameter (explicit draws)."),
+ "C12": ("Lean 4 theorems about the frame store (bindings invisible from older frames, visible later and in nested scopes), closure capture, placeholder substitution, chain = call, context of built-ins = call site, signature counting/typing rules; + differential correspondence",
+         "Kernel-checked: frames are append-only with older parents, so a binding in a later-created frame never changes what any name resolves to from an outer frame (shadowing cannot alter outer bindings), a binding is visible later in its scope and in nested scopes; a function value captures its definition frame and context item and is called in a new frame under it; missing arguments are undefined, surplus ignored; v ~> f(a) is literally the call f(v, a) and f ~> g composes; f(?, x) substitutes placeholders in order; a built-in receives the context item of its own call node; argument-count and type rules of signatures (plain, optional padding, variadic collection, type letters, unions, array subtypes). "
+         "Tied to /repo by scoping/closure/recursion programs, every one-parameter signature x option x argument list of length 0..2, random signatures up to 3 parameters against argument lists 0..4, placeholders in every position, chains of values/calls/functions/partials and context-defaulting built-ins nested under different path contexts.",
+         "DESIGN.md section 6 C12", "The frame theorems are about the model's explicit store; their tie to env.go is the correspondence."),
+ "C16": ("Lean 4 theorems on code-point lists: substring = slice spec for all integer start/length, pad length law, before/after concatenation law, join(split(s,c),c) = s for every s and c, first-occurrence, replace and trim facts; + differential correspondence and the inverse laws evaluated inside JSONata (incl. base64/URL round trips)",
+         "Kernel-checked for every string and every integer parameter: $substring is the code-point slice with negative starts from the end, $length($pad(s,n)) = max(|n|, $length(s)) with padding on the correct side, before & c & after = s when c occurs and both return s otherwise, the separator found is the first occurrence, $join($split(s,c),c) = s including the empty separator, limits truncate, $trim leaves no outer whitespace. "
+         "Tied to /repo by all strings up to length 2 (quick) / 3 (thorough) over an alphabet of ASCII, 2-, 3- and 4-byte characters, whitespace and separators with parameter grids -5..5 (incl. fractional) and pad/separator strings of length 0..3, random longer strings, and the laws evaluated as JSONata equalities that must be true.",
+         "DESIGN.md section 6 C16", "strings.Index/Split/Replace, utf8.RuneCountInString, unicode case mapping (ASCII and Latin-1 in the model), base64 and net/url are standard-library parameters: their round trips are checked on the implementation, the Lean theorem states the contract explicitly."),
 }
 
 NOT_YET = {}
